@@ -217,7 +217,7 @@ Section Exec.
 Variable run_act : act -> act.
 
 (* action.Attempts[len-1].Err != nil; with no attempt the code panics (index out of range): modelled as
-   an error; unreachable from fixBlock (FixProofs.resumed_actions) *)
+   an error; unreachable from fixBlock (FixProofs.fix_seq_resumable) *)
 Definition last_err (a : act) : bool :=
   match rev (ac_atts a) with x :: _ => x_err x | [] => true end.
 
